@@ -227,11 +227,17 @@ def register2(reg, repo):
               labels={("post", 1): "exactly-one-resume-on-entry", ("post", 3): "registered-before-resume",
                       ("xpost", 1): "failed-entry-unregisters", ("xpost", 2): "failed-entry-leaves-the-task-without-the-context",
                       "site_assumes": {"leave_context": ["self._active_task is None or isinstance(self._active_task, AsyncTask)"]}}))
-    reg.add(C(X + "AsyncContext.__exit__", modifies="*", types={},
+    STILL_ACTIVE = ("old(truthy(_asyncio_mode.cv_value)) or old(self._active_task) is None or "
+                    "old(self._active_task._contexts_active) == True")
+    reg.add(C(X + "AsyncContext.__exit__", modifies="*", types={"self._active_task": "AsyncTask"},
               calls={"leave_context": "contexts.leave_context"},
-              labels={"noattrcheck": True, ("post", 0): "exactly-one-pause-on-exit",
+              labels={"noattrcheck": True, ("post", 0): "exactly-one-pause-on-exit", ("post", 1): "no-second-pause-for-a-suspended-task",
                       "site_assumes": {"leave_context": ["self._active_task is None or isinstance(self._active_task, AsyncTask)"]}},
-              post=["callcount('contexts.AsyncContext.pause!virtual') == 1",
+              # the one pause that ends the block - unless the block is being left because a suspended task's generator is closed:
+              # then the scheduler has paused the task's contexts already (task._contexts_active is False) and a second pause
+              # would break the alternation (the recorded C06 finding, repaired)
+              post=["implies(" + STILL_ACTIVE + ", callcount('contexts.AsyncContext.pause!virtual') == 1)",
+                    "implies(not (" + STILL_ACTIVE + "), callcount('contexts.AsyncContext.pause!virtual') == 0)",
                     "call_before('contexts.leave_context', 'contexts.AsyncContext.pause!virtual')"],
               xpost=["callcount('contexts.AsyncContext.pause!virtual') == 1 or callcount('contexts.leave_context') == 1"]))
 
